@@ -360,7 +360,14 @@ class C09(Suite):
     id = "C09"
     props_module = "Cpppo.Props.C09"
     always_oracle = True
-    rule = ("a case = one freshly started real simulator + 2..8 real client sessions (raw EtherNet/IP sockets and "
+    rule = ("TWO families. (A) Connected sessions (op=fwd): one interleaved sequence of Forward Open / Forward Close / session end / "
+            "Connected request operations of 2..4 peers sharing hosts or ports (equal connection IDs and serials across peers; "
+            "Null-type and Point-to-Point opens with scripted target-picked IDs), run in-process on the real Connection_Manager / UCMM "
+            "and, for half of them, as EtherNet/IP frames through logix.process with enip_srv_tcp's drop-on-failure around it; every "
+            "sequence of <= 2 (thorough <= 3) operations of two same-host peers exhaustively, then seeded random ones; compared with the "
+            "Lean table model (answers + final dict) and, independently, each peer replayed alone on the real code; non-trivial = a Connected "
+            "request served after another peer's close/end. (B) "
+            "a case = one freshly started real simulator + 2..8 real client sessions (raw EtherNet/IP sockets and "
             "cpppo client.connector) issuing read/write/fragmented/bundled requests on a shared stripe (only ever "
             "written whole), per-session private ranges and a free-for-all range of 1..3 tags, ~12% invalid "
             "requests, optionally one session ending in a malformed frame; exhaustive pairs of request shapes for "
